@@ -77,6 +77,10 @@ def check_after_marker(ctx):
         lambda b, n: n.kind == "call" and len(n.ev["args"]) > 1 and A.tracer(b).operand(n.ev["args"][1]).has_const(name="DELETE_MARKER_DURABLE"),
         "= DELETE_MARKER_DURABLE"), inst, exact=1)
     R.guard(ctx, inst, body, st, ok_edges, "DELETE_MARKER_DURABLE is recorded only after the journalled marker write succeeded")
+    from rules.common import whole_collection_loop
+    for s_ in st:
+        ok, nm, det = whole_collection_loop(body, s_, 0)
+        ctx.check(ok and "marker_writes" in nm, inst, "FOLLOW", body.path, "every entry whose marker was written is flagged durable (loop over all of marker_writes)", body.where(s_), det)
     # data flow release_operations -> releasable -> group -> release_retirement_group
     gp = pushes_onto(body, "group")
     for p in rl:
@@ -165,9 +169,10 @@ def check_failed_write(ctx):
         wj = ctx.sites(body, R.call("DiskIO::write_allocation_journal"), inst, exact=1)
         bw = ctx.sites(body, R.call("DiskIO::batch_write_bytes"), inst, exact=1)
         R.never_after(ctx, inst, body, wj + bw, md, "reservations are marked dirty before the first device write of the batch, never after")
+        from rules.common import whole_collection_loop
         for m in md:
-            src = origin_names(body, R.arg_expr(body, body.nodes[m], 0))
-            ctx.check("prepared_writes" in src, inst, "PROVENANCE", body.path, "every prepared write is marked dirty (loop over prepared_writes)", body.where(m), {"src": sorted(src)})
+            ok, nm, det = whole_collection_loop(body, m, 0)
+            ctx.check(ok and "prepared_writes" in nm, inst, "PROVENANCE", body.path, "every prepared write is marked dirty (loop over all of prepared_writes)", body.where(m), det)
 
 
 def _is_release(name):
